@@ -76,14 +76,21 @@ H = {
                                          "SignerPrivateKeyShare::decode"],
                   "same for the other four types", "every length, all bytes", None),
     "ident0": ("wire.ident0", W, ["*::decode"],
-               "identifier 0 (and group private key 0) is rejected whatever the other bytes", "all other bytes", None),
+               "identifier 0 (and group private key 0) is rejected when every other component is valid; the same "
+               "strings with a non-zero identifier are accepted (natively replayable)", "all canonical s, k", None),
+    "glue": ("wire.suite_glue", W, ["scalar_decode", "scalar_encode", "scalar_encode_le", "scalar_cmp_vartime",
+                                    "point_decode", "point_encode"],
+             "scalar_decode(b) is Some <=> len == NS and wire integer < group order, scalar_encode gives b back; "
+             "scalar_cmp_vartime orders as the wire integers; point_decode(point_encode([k]B)) == [k]B; "
+             "neighbouring lengths rejected (natively replayable)", "all 2*NS-byte strings, all k", None),
     "clist2": ("wire.list.Commitment.2", W, ["Commitment::decode_list", "scalar_cmp_vartime", "scalar_encode_le"],
-               "decode_list on 2 elements: Some <=> both decode and identifiers strictly ascending as integers "
-               "(oracle on the wire bytes); elements are the element decodings; 0 and 1 element rejected",
-               "all 2*ENC_LEN-byte strings", None),
+               "decode_list on 2 elements with arbitrary identifier bytes and valid points: Some <=> identifiers "
+               "canonical, non-zero and strictly ascending as integers (oracle on the wire bytes); elements are the "
+               "element decodings; 0 and 1 element rejected (natively replayable)",
+               "all identifier bytes, points [k]B", None),
     "clist3": ("wire.list.Commitment.3", W, ["Commitment::decode_list", "Commitment::encode_list"],
                "decode_list on 3 elements: ordering between every adjacent pair; encode_list(decode_list(b)) == b",
-               "all 3*ENC_LEN-byte strings", None),
+               "all identifier bytes, points [k]B", None),
     "list_badlen": ("wire.list.badlen", W, ["Commitment::decode_list", "VSSElement::decode_list"],
                     "every length in 0..=2*ENC_LEN+1 that is not a multiple of the element length is rejected; "
                     "encode_list([]) is empty", "every such length, all bytes", None),
@@ -135,13 +142,12 @@ WIRE_ALL = [h for h, d in H.items() if d[1] == W]
 # budget on a loaded machine); the suite-specific code of every other suite (point_decode / point_encode /
 # scalar_decode / scalar_encode) through the Commitment wire-format harness
 QUICK = {
-    "ed25519": ["spec_nonce", "spec_signerpk", "spec_commitment", "spec_signature", "spec_keyshare", "rt_points",
-                "lengths_a", "lengths_b", "ident0", "clist2", "vshare_anylist", "vshare_sorted", "sign_total",
-                "vsplit_total", "vsplit_empty"],
-    "ristretto255": ["spec_commitment"],
-    "ed448": ["spec_commitment"],
-    "p256": ["spec_commitment"],
-    "secp256k1": ["spec_commitment"],
+    "ed25519": ["sign_total", "clist2", "rt_points", "rt_keys", "lengths_a", "spec_commitment", "spec_nonce",
+                "vsplit_total", "ident0", "glue", "vshare_anylist", "vsplit_empty"],
+    "ristretto255": ["glue"],
+    "ed448": ["glue"],
+    "p256": ["glue"],
+    "secp256k1": ["glue"],
 }
 # thorough tier: everything on ed25519; all wire formats on every suite; the totality harnesses on one suite of
 # each codec family (the protocol code is one macro body shared by all suites), the two known-defect harnesses
@@ -154,8 +160,7 @@ THOROUGH = {
     "p256": WIRE_ALL + _CORE_T + ["assemble_sorted"],
     "secp256k1": WIRE_ALL + ["vshare_anylist", "vsplit_empty"],
 }
-QUICK_TOTALITY = {"ed25519": ["vshare_anylist", "vshare_sorted", "sign_total", "vsplit_total", "vsplit_empty",
-                              "lengths_a", "lengths_b"]}
+QUICK_TOTALITY = {"ed25519": ["sign_total", "lengths_a", "vsplit_total", "vshare_anylist", "vsplit_empty"]}
 THOROUGH_TOTALITY = dict((s, [h for h in hs if h in TOTALITY]) for s, hs in THOROUGH.items())
 CAP = {"quick": 270, "thorough": 1800}
 
